@@ -321,7 +321,19 @@ func (r *runner) evalInstance(e *dbEnv, I *inst, round string) {
 	distinctSel := map[uint32]*selInfo{}
 	var selOrder []uint32
 
-	for ci, c := range r.conds {
+	// the conditions are evaluated in an order that is rotated per (instance, round): the answers do not depend on the
+	// order, but what a lookup leaves behind in lindb's caches does (which filter kind is the first one to touch a tag
+	// key's dictionary after a flush)
+	rot := 0
+	for _, ch := range I.metric + round {
+		rot = rot*31 + int(ch)
+	}
+	if rot < 0 {
+		rot = -rot
+	}
+	for k := range r.conds {
+		ci := (k + rot) % len(r.conds)
+		c := r.conds[ci]
 		if r.onlyCond >= 0 && ci != r.onlyCond {
 			continue
 		}
